@@ -7,7 +7,19 @@ diagnostic carries an argument, run through check-express
   (b) with -w <class> / -i <class> for every warning class name the tool advertises in its usage text, plus
       -w all, -i all, -w none, -i none and the combination -w all -i <class>.
 
+  (c) a deterministic lexical matrix (vf/c20_lex.py): encoded string literals "...." of every length class x every index
+      class of a non-hex digit (none, first, inner, 7, 8, 9, 15, 16, last), two bad digits, two literals per file / line,
+      illegal characters and _identifiers at fixed places; each with default switches, -w all and -w limits (the fault
+      sits between two constructs that draw a `limits` warning);
+  (d) every single-fault mutant again with warning-only declarations (all named warning classes) placed before / after /
+      on both sides of it, run with default switches, -w all and -w <class>;
+  (e) two single-fault mutants of two schemas in one file (both scanner faults, or both resolver faults).
+
 Oracle:
+  lexical       every PE030..PE033 diagnostic of every run is compared with the input itself: the quoted non-hex digit /
+                digit count / identifier / character belongs to a literal (identifier, character) on the reported line, a
+                literal of wrong length gets exactly one count diagnostic quoting its length, a literal of right length none;
+  two faults    both injected faults are reported with their own lexeme on their own line;
   attribution   every ERROR/WARNING line is prefixed by the input path exactly as given and a line number inside the file;
   argument      the message text fits the format of its code (message table of src/express/error.c, transcribed below as
                 the specification) and every quoted identifier is a non-empty identifier of the input; the diagnostic that
@@ -25,6 +37,7 @@ import zlib
 
 from .. import c04_faults as F
 from .. import c04_run as R
+from .. import c20_lex as L
 from .. import run
 
 TOOL = 'check-express'
@@ -279,9 +292,9 @@ def judge_switch(m, base, tr, cfg, w_all):
     lex = '(%s)' % (('0x%x' % m.lexeme) if m.cid == 'non_ascii' else m.lexeme)
     unstable = set(d.code for d in base.errors if d.code in (30, 31, 32, 33, 34) and lex not in d.msg)
 
-    def err_key(d):
-        return (d.code, d.line, '<argument already wrong in the default run>' if d.code in unstable else d.msg)
-    if sorted(err_key(d) for d in tr.errors) != sorted(err_key(d) for d in base.errors) or len(tr.odd) != len(base.odd):
+    def err_key(d, t):
+        return (d.code, d.line, '<argument already wrong in the default run>' if d.code in unstable else d.msg.replace(t.given, '<input>'))
+    if sorted(err_key(d, tr) for d in tr.errors) != sorted(err_key(d, base) for d in base.errors) or len(tr.odd) != len(base.odd):
         out.append(('%s|ERROR lines changed' % tag, '%s: %s vs default %s' % (names, [d.raw for d in tr.errors][:3], [d.raw for d in base.errors][:3])))
     if tr.r.rc != base.r.rc:
         return out
@@ -311,6 +324,46 @@ def judge_switch(m, base, tr, cfg, w_all):
         sym = 'warnings of another class changed' if other else 'warnings of the toggled class not switched'
         out.append(('%s|%s' % (tag, sym), '%s: unexpected %s, missing %s' % (names, extra[:3], missing[:3])))
     return out
+
+
+def verdict_text(tr):
+    both = tr.r.out + '\n' + tr.r.err
+    return tuple(t for t in ('No errors in input', 'Errors in input') if t in both)
+
+
+def err_id(tr, d):
+    """A diagnostic without the spelling of the (per run) scratch path."""
+    return (d.code, d.line, d.msg.replace(tr.given, '<input>'), (d.file or '').replace(tr.given, '<input>'))
+
+
+def same_verdict(what, base, tr, names):
+    """Exit status, printed verdict and ERROR lines of `tr` (run with switches `names`) against the default run. -> [(key, what)]"""
+    out = []
+    if tr.r.timed_out or base.r.timed_out:
+        return out
+    tag = 'warning switch %s, %s x %s' % (names if names in ('-w all', '-i all', '-w none', '-i none') else names.split()[0] + ' <class>', what, TOOL)
+    if tr.r.sig:
+        return [('%s|signal %d' % (tag, tr.r.sig), 'check-express %s died (stderr: %s)' % (names, tr.r.err[-200:].strip()))]
+    if tr.r.rc != base.r.rc:
+        out.append(('%s|exit status changed' % tag, '%s: exit %s, default exit %s; ERROR lines %r' % (names, tr.r.rc, base.r.rc, [d.raw for d in tr.errors][:3])))
+    if verdict_text(tr) != verdict_text(base):
+        out.append(('%s|printed verdict changed' % tag, '%s: says %r, default run says %r; ERROR lines %r' % (names, verdict_text(tr), verdict_text(base), [d.raw for d in tr.errors][:3])))
+    if sorted(err_id(tr, d) for d in tr.errors) != sorted(err_id(base, d) for d in base.errors) or len(tr.odd) != len(base.odd):
+        out.append(('%s|ERROR lines changed' % tag, '%s: %s vs default %s' % (names, [d.raw for d in tr.errors][:4], [d.raw for d in base.errors][:4])))
+    return out
+
+
+def settle_lines(j, shift):
+    """Line findings of one Judge once the common shift is known (appends to j.out)."""
+    for code, line, allowed, single in j.line_obs:
+        if line is None or (line - shift) not in allowed:
+            j.add(code, 'line number wrong', 'reported %s, lexeme on line %s (allowed %s, common shift %+d)' % (line, j.m.line, sorted(allowed), shift))
+    for prev, first in j.prev_obs:
+        if prev - shift != first:
+            j.add(1, 'previous-declaration line wrong', 'says line %d, first declaration on line %d (common shift %+d)' % (prev, first, shift))
+    for d in j.tr.diags:
+        if d.line is not None and not (1 <= d.line - shift <= j.nlines):
+            j.add(d.code, 'line number outside the file', d.raw[:160])
 
 
 def main(chk):
@@ -348,7 +401,7 @@ def main(chk):
         judges.append(j)
         for d in tr.diags:
             chk.seen(m.cid, m.variant, d.code)
-        if len(chk.samples) < 4 and m.cid in ('undef_attr_ref', 'dup_attribute', 'illegal_char', 'undef_item_use') and not any(s.get('cid') == m.cid for s in chk.samples):
+        if len(chk.samples) < 2 and m.cid in ('undef_attr_ref', 'dup_attribute', 'illegal_char', 'undef_item_use') and not any(s.get('cid') == m.cid for s in chk.samples):
             chk.sample(dict(cid=m.cid, mutant=m.describe(), given_path=tr.given, stderr=tr.r.err[:600], findings=[k for k, _w in j.out]))
     # common line shift: the most frequent (reported - recorded) over single-line classes
     deltas = {}
@@ -371,16 +424,11 @@ def main(chk):
                           % (deltas[best], total, shift, first.tr.diags[0].raw[:160], first.m.line),
                           {'input.exp': first.m.text}, dict(mutant=first.m.describe(), deltas=deltas))
     chk.extra['line_deltas'] = {str(k): v for k, v in sorted(deltas.items())}
+    plain_run = {}
     for j in judges:
-        for code, line, allowed, single in j.line_obs:
-            if line is None or (line - shift) not in allowed:
-                j.add(code, 'line number wrong', 'reported %s, lexeme on line %s (allowed %s, common shift %+d)' % (line, j.m.line, sorted(allowed), shift))
-        for prev, first in j.prev_obs:
-            if prev - shift != first:
-                j.add(1, 'previous-declaration line wrong', 'says line %d, first declaration on line %d (common shift %+d)' % (prev, first, shift))
-        for d in j.tr.diags:
-            if d.line is not None and not (1 <= d.line - shift <= j.nlines):
-                j.add(d.code, 'line number outside the file', d.raw[:160])
+        settle_lines(j, shift)
+        j.out += L.lex_findings(j.m.text, j.tr.diags, shift, TOOL)
+        plain_run[id(j.m)] = j.tr
         for key, what in j.out:
             chk.violation(key, what, {'input.exp': j.m.text}, dict(mutant=j.m.describe(), given_path=j.tr.given, stderr=j.tr.r.err[:1500]))
 
@@ -463,15 +511,187 @@ def main(chk):
     chk.extra['warning_codes_observed_with_-w_all'] = sorted(warn_seen)
     chk.extra['unmasked_fraction_switch_matrix'] = round(1 - n_sig / float(n_sw), 3) if n_sw else 0.0
 
+    # ---------------- (c) deterministic lexical matrix
+    lex_cases = L.enc_cases(chk.seed) + L.other_cases()
+    LCFG = [(), (('-w', 'all'),), (('-w', 'limits'),)] if 'limits' in classes else [(), (('-w', 'all'),)]
+
+    def lwork(job):
+        c, cfg = job
+        return job, R.run_tool(TOOL, c.text, args=[x for fn in cfg for x in fn], how='abs')
+    lres = {}
+    for (c, cfg), tr in run.pmap(lwork, [(c, cfg) for c in lex_cases for cfg in LCFG]):
+        lres[(id(c), cfg)] = tr
+        chk.ev()
+    n_lex_both = 0
+    for c in lex_cases:
+        base = lres[(id(c), ())]
+        chk.tag('lexical matrix:%s' % c.shape[0])
+        if base.r.timed_out:
+            chk.inconc('watchdog fired on lexical matrix case %r' % (c.shape,))
+            continue
+        chk.seen('lex', c.shape[0], c.shape[1], tuple(sorted(set(d.code for d in base.errors))))
+        finds = L.lex_findings(c.text, base.diags, shift, TOOL)
+        for d in base.diags:
+            if d.file != base.given:
+                finds.append(('%s PE%03d x %s|diagnostic attributed to another file' % (L.CLS.get(d.code, 'lexical matrix'), d.code, TOOL), 'given %r, printed %r' % (base.given, d.file)))
+            fm = FORMATS.get(d.code)
+            if fm is not None and not fm.match(d.msg):
+                finds.append(('%s PE%03d x %s|message text does not fit the format of its code' % (L.CLS.get(d.code, 'lexical matrix'), d.code, TOOL), d.raw[:200]))
+        if c.expect is not None:
+            got = []
+            for d in base.errors:
+                mm = L._ARG[d.code].match(d.msg) if d.code in (32, 33) else None
+                if mm:
+                    got.append((d.code, d.line - shift, mm.group(1)))
+            for e in c.expect:
+                if e in got:
+                    got.remove(e)
+                else:
+                    sym = 'diagnostic not produced' if not any(g[0] == e[0] and g[1] == e[1] for g in got) else 'argument text wrong: got text not from the input'
+                    finds.append(('%s PE%03d x %s|%s' % (L.CLS[e[0]], e[0], TOOL, sym), 'expected PE%03d quoting %r on line %d; stderr %r' % (e[0], e[2], e[1], base.r.err[:400])))
+            for g in got:
+                finds.append(('%s PE%03d x %s|diagnostic for a construct that is not in the input' % (L.CLS[g[0]], g[0], TOOL), 'PE%03d quoting %r on line %d; expected only %r' % (g[0], g[2], g[1], c.expect)))
+        small = set(i + 1 for i, l in enumerate(c.text.split('\n')) if L.SMALL in l)
+        for cfg in LCFG[1:]:
+            tr = lres[(id(c), cfg)]
+            names = ' '.join('%s %s' % fn for fn in cfg)
+            finds += same_verdict('lexical fault between warnings', base, tr, names)
+            if tr.errors and any(w.code == 25 for w in tr.warnings):
+                n_lex_both += 1
+            for w in tr.warnings:
+                if w.code == 25 and w.line is not None and (w.line - shift) not in small:
+                    finds.append(('warning PW025 x %s|line number wrong' % TOOL, '%r; small REAL literals on lines %s' % (w.raw[:160], sorted(small))))
+                if w.code != 25:
+                    finds.append(('warning switch %s, lexical fault between warnings x %s|warnings of another class changed' % (names if cfg[0][1] == 'all' else '-w <class>', TOOL), w.raw[:200]))
+        for key, what in finds:
+            chk.violation(key, what, {'input.exp': c.text}, dict(case=c.describe(), stderr=base.r.err[:1200]))
+        if c.shape[1].startswith('bad digit index 7') and not any(s.get('cid') == 'lex_matrix' for s in chk.samples):
+            chk.sample(dict(cid='lex_matrix', shape=c.shape, literals=c.lits, stderr=base.r.err[:500], stderr_w_all=lres[(id(c), LCFG[1])].r.err[:700], findings=[k for k, _w in finds]))
+    chk.count('lexical matrix inputs', len(lex_cases))
+    chk.count('lexical matrix runs with ERROR and limits WARNING lines together', n_lex_both)
+
+    # ---------------- (d) every fault inside warning-only context, warnings switched on
+    def ctx_cfgs(i, full):
+        per = [(('-w', c),) for c in classes]
+        if full:
+            return [(('-w', 'all'),)] + per + [(('-w', 'all'), ('-i', c)) for c in classes[i % 3::3]]
+        return [(('-w', 'all'),)] + ([per[(2 * i + t) % len(per)] for t in range(2)] if per else [])
+    full_bases = set([files[0].name, files[min(n_multi, len(files) - 1)].name])
+    wrapped = []
+    for i, m in enumerate(muts):
+        if m.cid in NEEDS_WARNINGS_ON or id(m) not in plain_run:
+            continue
+        full = m.base.name in full_bases
+        for where in (L.WHERE if full else (L.WHERE[zlib.crc32(('%s/%s' % (m.base.name, m.cid)).encode()) % 3],)):
+            w = L.wrap(m, where)
+            if w is None:
+                chk.count('faults not wrapped (binary input)')
+                continue
+            wrapped.append((w, [()] + ctx_cfgs(i, full)))
+    wres = {}
+    for (w, cfg), tr in run.pmap(lwork, [(w, cfg) for w, cfgs in wrapped for cfg in cfgs]):
+        wres[(id(w), cfg)] = tr
+        chk.ev()
+    n_ctx = n_ctx_both = n_ctx_after = 0
+    for w, cfgs in wrapped:
+        base = wres[(id(w), ())]
+        if base.r.timed_out:
+            chk.inconc('watchdog fired on %s in warning context' % w.cid)
+            continue
+        if base.r.sig:
+            chk.count('runs ended by signal (judged by C04/C06)')
+            continue
+        finds = []
+        # the fault is still reported with its own lexeme (and line) among the added declarations
+        j = Judge(w, base, w.text).judge()
+        if w.judge_lines:
+            settle_lines(j, shift)
+        finds += j.out
+        finds += L.lex_findings(w.text, base.diags, shift, TOOL)
+        ref = wres[(id(w), (('-w', 'all'),))]
+        ref_ok = not (ref.r.sig or ref.r.timed_out or ref.r.rc != base.r.rc)
+        for cfg in cfgs[1:]:
+            tr = wres[(id(w), cfg)]
+            names = ' '.join('%s %s' % fn for fn in cfg)
+            n_ctx += 1
+            chk.seen('ctx', w.cid, w.where, ' '.join('%s %s' % (f, n if n == 'all' else 'class') for f, n in cfg))
+            chk.tag('context:warnings %s the fault' % {'before': 'before', 'after': 'after', 'both': 'before and after'}[w.where])
+            if tr.errors and tr.warnings:
+                n_ctx_both += 1
+                if base.errors and any(x.line is not None and x.line > max(e.line or 0 for e in tr.errors) for x in tr.warnings):
+                    n_ctx_after += 1
+            finds += same_verdict('fault inside warning-only context', base, tr, names)
+            finds += judge_switch(w, base, tr, cfg, ref if ref_ok else None)
+        seen_k = set()
+        for key, what in finds:
+            if (key, what) in seen_k:
+                continue
+            seen_k.add((key, what))
+            chk.violation(key, what, {'input.exp': w.text}, dict(mutant=w.describe(), warnings=w.where, default_stderr=base.r.err[:800], w_all_stderr=ref.r.err[:1500]))
+        if w.cid == 'undef_type' and w.where == 'after' and not any(s.get('cid') == 'fault in warning context' for s in chk.samples):
+            chk.sample(dict(cid='fault in warning context', mutant=w.describe(), warnings=w.where, default_exit=base.r.rc, w_all_exit=ref.r.rc,
+                            w_all_stderr=ref.r.err[:900]))
+    chk.count('faults wrapped in warning-only context', len(wrapped))
+    chk.count('context runs with a warning switch', n_ctx)
+    chk.count('context runs printing ERROR and WARNING lines together', n_ctx_both)
+    chk.count('context runs with a WARNING on a later line than every ERROR', n_ctx_after)
+
+    # ---------------- (e) two faults in one file
+    prs = L.pairs([m for m in muts if id(m) in plain_run and not plain_run[id(m)].r.sig], chk.seed, 1 if quick else 6)
+
+    def pwork(p):
+        return p, R.run_tool(TOOL, p.text, how='abs')
+    for p, tr in run.pmap(pwork, prs):
+        chk.ev()
+        if tr.r.timed_out:
+            chk.inconc('watchdog fired on a two-fault file')
+            continue
+        if tr.r.sig:
+            chk.count('runs ended by signal (judged by C04/C06)')
+            continue
+        chk.seen('pair', p.phase, p.a.cid, p.b.cid)
+        chk.tag('two faults:' + p.phase)
+        finds = L.lex_findings(p.text, tr.diags, shift, TOOL)
+        for which, m, off in (('first', p.a, 0), ('second', p.b, p.off)):
+            pcode, pargs = PRIMARY[m.cid]
+            ok_lines = set(x + off for x in allowed_lines(m, m.cid))
+            hit = False
+            for d in tr.errors:
+                mm = FORMATS[pcode].match(d.msg) if d.code == pcode else None
+                if not mm or d.line is None or (d.line - shift) not in ok_lines:
+                    continue
+                g = mm.groupdict()
+                if all(what == 'first_line' or g.get(field) in expected_value(m, what) for field, what in pargs[:1]):
+                    hit = True
+            if not hit:
+                finds.append(('%s x %s|%s fault not reported with its own text and line' % (p.cls, TOOL, which),
+                              '%s fault %s %r on line %d: no PE%03d quoting it there; stderr %r' % (which, m.cid, m.lexeme, m.line + off, pcode, tr.r.err[:700])))
+        for key, what in finds:
+            chk.violation(key, what, {'input.exp': p.text}, dict(pair=p.describe(), stderr=tr.r.err[:1500]))
+        if not any(s.get('cid') == 'two_faults' for s in chk.samples):
+            chk.sample(dict(cid='two_faults', pair=p.describe(), stderr=tr.r.err[:600], findings=[k for k, _w in finds]))
+    chk.count('two-fault files', len(prs))
+
     return chk.finish(
         rule='single-fault mutants (vf/c04_faults.py) of %d generated valid files (%d multi-schema), one per argument-carrying fault class '
              '(%d classes) and file, run by check-express with the path given in 3 forms; switch matrix over the %d advertised warning names '
              'x {-w,-i} + all/none + "-w all -i <class>" on warning-bearing variants of the files and on every %d-th mutant; distinct_nontrivial = '
-             'distinct (fault class, variant, diagnostic code) resp. (switch combination, warning-bearing?) judged'
-             % (n_files, n_multi, len(ARG_CLASSES), len(classes), step),
+             'distinct (fault class, variant, diagnostic code) resp. (switch combination, warning-bearing?) judged; + %d fixed lexical inputs '
+             '(encoded string literals: %d lengths x index class of the bad digit, two bad digits, two literals; illegal characters and _identifiers at '
+             'fixed places), each under default, -w all, -w limits, distinct = (family, shape, codes printed); + every mutant wrapped in warning-only '
+             'declarations before / after / around it (%d wrapped inputs; the mutants of 2 files in all 3 positions under -w all, every -w <class> and '
+             '-w all -i <class>, the others in one position under -w all and 2 classes), distinct = (fault class, position, switch kind); + %d files '
+             'holding two faults of two schemas, distinct = (phase, class 1, class 2)'
+             % (n_files, n_multi, len(ARG_CLASSES), len(classes), step, len(lex_cases), len(L.LENS), len(wrapped), len(prs)),
         assumptions=['message formats and the warning class -> code table are transcribed from LibErrors[] in src/express/error.c and serve as the specification',
                      'the injector records lexeme and 1-based line correctly (lines are found by searching the printed text for the unique lexeme)',
                      'file:line: diagnostics are expected to be 1-based like every compiler-style diagnostic; a shift common to >= 90% of the judged '
                      'numbers is reported once and the other line checks are made relative to it',
+                     'an encoded string literal is "...." on a line without apostrophes or remarks (true for every generated input); its digit count is the '
+                     'number of characters between the quotes; one PE030 per literal with a non-hex digit is demanded, at most one per such character allowed',
+                     'the declarations of vf/c20_lex.py warn_decls() are accepted by check-express and only draw warnings; verdict and ERROR lines of a '
+                     'wrapped fault are compared between switch settings of the SAME file, never with the unwrapped file',
+                     'two faults in one file: only pairs whose diagnostics come from the same phase (scanner/scanner, resolver/resolver, no fatal '
+                     'severity), since a failed phase legitimately ends the run',
                      'while every -w/-i run dies (open finding) the switch-invariance clause and the wrong-argument-count warning are not observable; '
                      'unmasked_fraction_switch_matrix in the evidence says how much of the matrix was judged'])
